@@ -145,14 +145,6 @@ func VerifCrashPutCasZstd() { vCrashPut(cache.CAS, casblob.Zstandard, 14, 150000
 // point is the file left in a state the restarted server would serve
 func VerifCrashPutCasZstdBad() { vCrashPut(cache.CAS, casblob.Zstandard, 14, 1500000, true) }
 
-func vLE(b []byte, off, n int) int64 {
-	v := int64(0)
-	for i := 0; i < n; i++ {
-		v |= int64(b[off+i]) << (8 * uint(i))
-	}
-	return v
-}
-
 // vCrashFetch: a blob is being fetched from the backend when the process is
 // killed at the k-th file-system step; restart; read the key. In compressed
 // CAS mode the backend delivers a finished casblob file, header first: the
